@@ -7,10 +7,14 @@ def jobs(tier):
     q = [
         dict(name='n4e3', harness=H, entry='main_c20', defines=dict(NN=4, NE=3, NE_MIN=1, ONE_TREE=1, TP_HI=1, SP_HI=2),
              timeout=900, require_tags={'end': 1, 'accept': 1, 'all-missing': 1}),
+        dict(name='n3e2-allele40', harness=H, entry='main_c20', defines=dict(NN=3, NE=2, NE_MIN=1, ONE_TREE=1, TP_HI=0, SP_HI=1, HIGH_ALLELE=40),
+             timeout=900, require_tags={'end': 1, 'accept': 1}),
     ]
     if tier == 'quick':
         return q
     return q + [
+        dict(name='n4e3-allele63', harness=H, entry='main_c20', defines=dict(NN=4, NE=3, NE_MIN=2, ONE_TREE=1, TP_HI=0, SP_HI=1, HIGH_ALLELE=63),
+             timeout=3000, allow_incomplete=True, require_tags={'end': 1, 'accept': 1}),
         dict(name='n5e4', harness=H, entry='main_c20', defines=dict(NN=5, NE=4, NE_MIN=3, ONE_TREE=1, TP_HI=0, SP_HI=2),
              timeout=3000, allow_incomplete=True, require_tags={'end': 1, 'accept': 1, 'all-missing': 1}),
     ]
@@ -19,10 +23,10 @@ def jobs(tier):
 BOUNDS = {
     'quick': 'every one-tree sequence with 4 nodes and 1-3 edges under 2 time profiles x 3 sample profiles (2 or 3 samples, '
              'incl. an internal sample; polytomies, unary chains, multiple roots, isolated samples), genotypes per sample '
-             'enumerated over {-1,0,1,2}, ancestral state free or fixed to 0,1,2',
+             'enumerated over {-1,0,1,2}, ancestral state free or fixed to 0,1,2; 3-node trees also with allele 40 in place of 2 (bit-set arithmetic above bit 31)',
     'thorough': 'plus 5 nodes with 3-4 edges (time-boxed)',
 }
-OUTSIDE = ['alleles 3..63 and the rejected values 64 and above (see C09 harness for the bounds checks)',
+OUTSIDE = ['alleles other than 0,1,2,40 (63 in thorough) and the rejected values 64 and above (see C09 harness for the bounds checks)',
            'allele string translation in Tree.map_mutations (Python)', 'trees with more than 5 nodes']
 ASSUMPTIONS = ['Sankoff cost table in the harness (alphabet {0,1,2}) is the parsimony reference']
 MANIFEST = dict(
